@@ -44,3 +44,11 @@ Example C08_nonvacuous :
     (SFunctionDef "f" 1%Z (mkArgs [] [] None [] [] None [])
        [SWhile (Name "c") [SIf (Name "d") [SPass; SUnsupported "Try"] []] []] []) = true.
 Proof. exact reject_example. Qed.
+
+(* a starred element in the target pattern of a comprehension clause - so, in particular, two starred names in one such pattern -
+   is refused, for every kind of comprehension, any clause, any nesting of the pattern *)
+Theorem C08_starred_comprehension_target_rejected : forall n bd inn x k v gs, existsb clause_star gs = true ->
+  failed (transf n bd inn (ListComp x gs)) /\ failed (transf n bd inn (SetComp x gs)) /\
+  failed (transf n bd inn (GeneratorExp x gs)) /\ failed (transf n bd inn (DictComp k v gs)).
+Proof. exact starred_comprehension_target_rejected. Qed.
+Print Assumptions C08_starred_comprehension_target_rejected.
